@@ -479,7 +479,13 @@ def standard_check(prop, tier, seed, fam):
             elif p is None:
                 harness_err.append(rec)
     if harness_err:
-        raise Inconclusive("harness/monitor protocol error (not a verdict): %s" % harness_err[:3])
+        # a protocol problem taints its own run only: violations observed in runs without such a
+        # problem are still observations of real behaviour
+        tainted = set((v["trace_file"], v["run"]) for v in harness_err)
+        mine = [v for v in mine if (v["trace_file"], v["run"]) not in tainted]
+        if not mine:
+            raise Inconclusive("harness/monitor protocol error (not a verdict): %s" % harness_err[:3])
+        notes.append("%d runs had harness/monitor protocol errors (e.g. %s); their events were not judged" % (len(tainted), harness_err[0]["name"]))
     if st["crashed_shards"]:
         notes.append("%d harness shards crashed; their flushed events were still validated" % st["crashed_shards"])
 
